@@ -163,26 +163,24 @@ def codeBefore (inp : Bytes) (off : Nat) : Bool :=
   (pre.takeWhile (· != 10)).any fun b => !(b == 32 || b == 9 || b == 13)
 
 def skipTriviaF (inp : Bytes) : Nat → Bytes → List Comment → Bytes × List Comment
-  | 0, rest, cs => (rest, cs)
+  | 0, rest, cs => (rest.dropWhile isWS, cs)
   | fuel+1, rest, cs =>
     let r1 := rest.dropWhile isWS
     match r1 with
     | c0 :: c1 :: body =>
       if c0 == 45 && c1 == 45 then
         let r2 := afterLine body
-        let startOff := inp.length - r1.length
-        let endOff := inp.length - r2.length
-        let textEnd := if endOff > 0 && inp[endOff - 1]? == some 10 then endOff - 1 else endOff
+        let whole := consumed r1 r2
+        -- the text stops before the newline that ends the comment
+        let text := if whole.getLast? == some 10 then whole.dropLast else whole
         skipTriviaF inp fuel r2
-          (cs ++ [{ text := (inp.drop startOff).take (textEnd - startOff), block := false, startOff, endOff,
-                    inline := codeBefore inp startOff }])
+          (cs ++ [{ text, block := false, startOff := inp.length - r1.length, endOff := inp.length - r2.length,
+                    inline := codeBefore inp (inp.length - r1.length) }])
       else if c0 == 47 && c1 == 42 then
         let r2 := afterBlock body
-        let startOff := inp.length - r1.length
-        let endOff := inp.length - r2.length
         skipTriviaF inp fuel r2
-          (cs ++ [{ text := (inp.drop startOff).take (endOff - startOff), block := true, startOff, endOff,
-                    inline := codeBefore inp startOff }])
+          (cs ++ [{ text := consumed r1 r2, block := true, startOff := inp.length - r1.length,
+                    endOff := inp.length - r2.length, inline := codeBefore inp (inp.length - r1.length) }])
       else (r1, cs)
     | _ => (r1, cs)
 
@@ -212,38 +210,43 @@ def readIdentifier (cls : CharClass) (tb : Tables) (bs : Bytes) : Tok × Bytes :
         else plain
     else plain
 
+/-- optional fraction of a number: `.` must be followed by a digit -/
+def numFrac (inp r1 : Bytes) : Except LexErr Bytes :=
+  match r1 with
+  | 46 :: r2 =>
+    match r2 with
+    | [] => .error ⟨"E1003", .at (inp.length - r2.length)⟩
+    | d :: _ => if isDigitR d.toNat then .ok (dropRunes isDigitR r2) else .error ⟨"E1003", .at (inp.length - r2.length)⟩
+  | _ => .ok r1
+
+def skipSign : Bytes → Bytes
+  | s :: r => if s == 43 || s == 45 then r else s :: r
+  | [] => []
+
+/-- optional exponent: `e`/`E`, optional sign, at least one digit -/
+def numExp (inp r3 : Bytes) : Except LexErr Bytes :=
+  match r3 with
+  | e :: r4 =>
+    if e == 101 || e == 69 then
+      match skipSign r4 with
+      | [] => .error ⟨"E1003", .at inp.length⟩
+      | d :: r5 =>
+        if isDigitR d.toNat then .ok (dropRunes isDigitR (d :: r5))
+        else .error ⟨"E1003", .at (inp.length - (d :: r5).length)⟩
+    else .ok r3
+  | [] => .ok r3
+
 /-- readNumber -/
 def readNumber (tb : Tables) (inp bs : Bytes) : Except LexErr (Tok × Bytes) :=
-  let off (r : Bytes) := inp.length - r.length
-  let r1 := dropRunes isDigitR bs
-  let afterFrac : Except LexErr Bytes :=
-    match r1 with
-    | 46 :: r2 =>
-      match r2 with
-      | [] => .error ⟨"E1003", .at (off r2)⟩
-      | d :: _ => if isDigitR d.toNat then .ok (dropRunes isDigitR r2) else .error ⟨"E1003", .at (off r2)⟩
-    | _ => .ok r1
-  match r1 with
-  | [] => .ok ({ ty := tb.ttNumber, value := consumed bs r1 }, r1)
-  | _ =>
-    match afterFrac with
+  if (dropRunes isDigitR bs).isEmpty then
+    .ok ({ ty := tb.ttNumber, value := consumed bs (dropRunes isDigitR bs) }, dropRunes isDigitR bs)
+  else
+    match numFrac inp (dropRunes isDigitR bs) with
     | .error e => .error e
     | .ok r3 =>
-      match r3 with
-      | e :: r4 =>
-        if e == 101 || e == 69 then
-          let r5 := match r4 with
-            | s :: r => if s == 43 || s == 45 then r else r4
-            | [] => r4
-          match r5 with
-          | [] => .error ⟨"E1003", .at (off r5)⟩
-          | d :: _ =>
-            if isDigitR d.toNat then
-              let r6 := dropRunes isDigitR r5
-              .ok ({ ty := tb.ttNumber, value := consumed bs r6 }, r6)
-            else .error ⟨"E1003", .at (off r5)⟩
-        else .ok ({ ty := tb.ttNumber, value := consumed bs r3 }, r3)
-      | [] => .ok ({ ty := tb.ttNumber, value := consumed bs r3 }, r3)
+      match numExp inp r3 with
+      | .error e => .error e
+      | .ok r6 => .ok ({ ty := tb.ttNumber, value := consumed bs r6 }, r6)
 
 /-- body of a double-quoted identifier (after the opening quote); `quote` is the normalised quote -/
 def quotedIdentF (quote : Nat) : Nat → Bytes → Bytes → Option (Bytes × Bytes) ⊕ Unit
@@ -304,67 +307,65 @@ def stringBodyF (inp : Bytes) (quote : Nat) : Nat → Bytes → Bytes → Except
         | none => .ok (some (acc, rest))
       else if r == 92 then
         -- handleEscapeSequence: the backslash is one byte
-        let afterBs := bs.drop 1
-        match nextRune afterBs with
-        | none => .error ⟨"E1002", .at (inp.length - afterBs.length)⟩
+        match nextRune bs.tail with
+        | none => .error ⟨"E1002", .at (inp.length - bs.tail.length)⟩
         | some (e, rest2) =>
           if e == 92 || e == 34 || e == 39 || e == 96 then stringBodyF inp quote fuel rest2 (acc ++ encodeRune e)
           else if e == 110 then stringBodyF inp quote fuel rest2 (acc ++ [10])
           else if e == 114 then stringBodyF inp quote fuel rest2 (acc ++ [13])
           else if e == 116 then stringBodyF inp quote fuel rest2 (acc ++ [9])
-          else .error ⟨"E1001", .at (inp.length - afterBs.length)⟩
+          else .error ⟨"E1001", .at (inp.length - bs.tail.length)⟩
       else stringBodyF inp quote fuel rest (acc ++ encodeRune r)
+
+/-- does a closing `quote quote quote` start here?  Tested only when at least three bytes remain. -/
+def tripleCloses (quote : Nat) (bs : Bytes) : Option Bytes :=
+  if bs.length < 3 then none
+  else
+    match nextRune bs with
+    | some (r1, t1) =>
+      match nextRune t1 with
+      | some (r2, t2) =>
+        match nextRune t2 with
+        | some (r3, t3) => if r1 == quote && r2 == quote && r3 == quote then some t3 else none
+        | none => none
+      | none => none
+    | none => none
 
 /-- body of a triple-quoted string after the opening three quotes (`quote` is the raw quote rune) -/
 def tripleBodyF (quote : Nat) : Nat → Bytes → Bytes → Option (Bytes × Bytes)
   | 0, _, _ => none
   | fuel+1, bs, acc =>
-    -- the closing test is made only when at least three bytes remain (`Index+2 < len`)
-    let closes : Option Bytes :=
-      match bs with
-      | _ :: _ :: _ :: _ =>
-        match nextRune bs with
-        | some (r1, t1) =>
-          match nextRune t1 with
-          | some (r2, t2) =>
-            match nextRune t2 with
-            | some (r3, t3) => if r1 == quote && r2 == quote && r3 == quote then some t3 else none
-            | none => none
-          | none => none
-        | none => none
-      | _ => none
-    match closes with
+    match tripleCloses quote bs with
     | some t3 => some (acc, t3)
     | none =>
       match nextRune bs with
       | none => none
       | some (r, rest) => tripleBodyF quote fuel rest (acc ++ encodeRune r)
 
+/-- triple quote: at least three bytes, and the bytes at +1 and +2 decode to the opening quote rune -/
+def isTriple (r0 : Nat) (bs : Bytes) : Bool :=
+  3 ≤ bs.length && (decodeRune (bs.drop 1)).1 == r0 && (decodeRune (bs.drop 2)).1 == r0
+
+/-- the rest after two more runes (the opening of a triple-quoted string consumes three runes) -/
+def dropTwoRunes (r1 : Bytes) : Bytes :=
+  match nextRune r1 with
+  | some (_, t) => (match nextRune t with | some (_, t2) => t2 | none => t)
+  | none => r1
+
 /-- readQuotedString (called with the raw opening rune) -/
 def readQuotedString (tb : Tables) (inp bs : Bytes) : Except LexErr (Tok × Bytes) :=
-  let startOff := inp.length - bs.length
   match nextRune bs with
-  | none => .error ⟨"E1002", .at startOff⟩
+  | none => .error ⟨"E1002", .at (inp.length - bs.length)⟩
   | some (r0, r1) =>
-    -- triple quote: the two bytes after the first byte decode to the same quote rune
-    let triple : Bool :=
-      match bs with
-      | _ :: b1 :: b2 :: _ => (decodeRune (bs.drop 1)).1 == r0 && (decodeRune (bs.drop 2)).1 == r0 && b1 == b1 && b2 == b2
-      | _ => false
-    if triple then
-      -- three runes are consumed as the opening
-      let r3 := match nextRune r1 with
-        | some (_, t) => (match nextRune t with | some (_, t2) => t2 | none => t)
-        | none => r1
-      match tripleBodyF r0 r3.length r3 [] with
+    if isTriple r0 bs then
+      match tripleBodyF r0 (dropTwoRunes r1).length (dropTwoRunes r1) [] with
       | some (v, rest) =>
         .ok ({ ty := if r0 == 39 then tb.ttTripleSingle else tb.ttTripleDouble, value := v, quote := r0 }, rest)
-      | none => .error ⟨"E1002", .at startOff⟩
+      | none => .error ⟨"E1002", .at (inp.length - bs.length)⟩
     else
-      let quote := normalizeQuote r0
-      match stringBodyF inp quote r1.length r1 [] with
+      match stringBodyF inp (normalizeQuote r0) r1.length r1 [] with
       | .error e => .error e
-      | .ok none => .error ⟨"E1002", .at startOff⟩
+      | .ok none => .error ⟨"E1002", .at (inp.length - bs.length)⟩
       | .ok (some (v, rest)) =>
         let ty := if isStringQuoteStart r0 then tb.ttSingle
                   else if r0 == 34 || r0 == 0x201C || r0 == 0x201D then tb.ttDouble else tb.ttString
